@@ -170,7 +170,9 @@ class Library:
     @property
     def strings(self) -> List[String]:
         """All @string blocks in the library, preserving order of insertion."""
-        return list(self._strings_by_key.values())
+        # Note: Taking this from the strings dict would be faster, but does not preserve order
+        #   e.g. in cases where `replace` has been called (also when it failed and was reverted).
+        return [b for b in self._blocks if isinstance(b, String)]
 
     @property
     def strings_dict(self) -> Dict[str, String]:
